@@ -139,7 +139,7 @@ func c17GenSetup(r *Rng) c17Setup {
 		return ps
 	}
 	s.Coms = []c17Com{
-		{ID: 1, Members: []int{0, 1, 2}, Perms: perms(false), Threshold: pick(r, []string{"0.5", "0.667", "1.0", "0.34"}), Duration: pick(r, []int64{50, 100, 200}), FPTP: r.Chance(6, 10)},
+		{ID: 1, Members: []int{0, 1, 2}, Perms: perms(false), Threshold: pick(r, []string{"0.5", "0.667", "1.0", "0.34"}), Duration: pick(r, []int64{50, 100, 200, 0}), FPTP: r.Chance(6, 10)},
 		{ID: 2, Members: []int{0, 1, 2, 3}, Perms: perms(r.Chance(1, 4)), Threshold: pick(r, []string{"0.5", "0.75", "0.25"}), Duration: pick(r, []int64{40, 100}), FPTP: r.Chance(2, 10)},
 		{ID: 3, Token: true, Quorum: pick(r, []string{"0.4", "0.3", "0.0", "0.65"}), Members: []int{0, 5}, Perms: append(perms(false), c17Perm{Kind: "text"}),
 			Threshold: pick(r, []string{"0.5", "0.75", "0.6"}), Duration: pick(r, []int64{60, 100}), FPTP: r.Chance(5, 10)},
@@ -582,8 +582,17 @@ func (g *c17Gen) genOp(prev *c17Snap) c17Op {
 	if len(pending) > 0 {
 		wVote, wBegin = 30, 14
 	}
-	switch r.Pick(26, 5, 22, wVote, wBegin, 3, 2, 1) {
+	wApply := 5
+	if len(pending) > 0 {
+		wApply = 9
+	}
+	switch r.Pick(26, wApply, 22, wVote, wBegin, 3, 2, 1) {
 	case 0:
+		if r.Chance(3, 100) {
+			// directed: a sub-parameter rule on a registered subspace's unset key makes allowsParamChange panic
+			perm := c17Perm{Kind: "params", ACs: []c17AC{{P: -2, Single: []string{"x"}}}}
+			return c17Op{Kind: "allows", Perm: &perm, Content: &c17Content{Kind: "param", Changes: []c17Change{{-2, `{"x":"1"}`}}}}
+		}
 		var perm c17Perm
 		if len(ids) > 0 && r.Chance(65, 100) {
 			c := w.coms[pick(r, ids)]
@@ -600,6 +609,15 @@ func (g *c17Gen) genOp(prev *c17Snap) c17Op {
 		}
 		return c17Op{Kind: "allows", Perm: &perm, Content: g.genContent(pp, prev)}
 	case 1:
+		// directed: move a parameter under a pending parameter-change proposal (as x/gov could), so that
+		// the proposal's permission or handler fails when it is enacted (closed as Invalid)
+		if len(pending) > 0 && r.Chance(70, 100) {
+			p := pick(r, pending)
+			if pi := w.pend[int(p[0])]; pi != nil && pi.content.Kind == "param" && len(pi.content.Changes) > 0 && pi.content.Changes[0].P >= 0 {
+				slot := pi.content.Changes[0].P
+				return c17Op{Kind: "apply", Content: &c17Content{Kind: "param", Changes: []c17Change{{slot, g.genDoc(slot, nil, prev)}}}}
+			}
+		}
 		return c17Op{Kind: "apply", Content: g.genContent(nil, prev)}
 	case 2:
 		op := c17Op{Kind: "submit", Com: 9}
